@@ -581,6 +581,90 @@ def leg_c(ctx, root, batches, tag):
 
 # ------------------------------------------------------------------------------------------------
 
+# ---- leg W: the word parser (brush-parser/src/word.rs) against Model/WordParse.lean
+WP_ALPHA = ["a", "é", " ", "'", '"', "\\", "$", "{", "}", "(", ")", "v", "1", "@", "~", "/"]
+WP_EXTRA = ['~/a$v"x\\$${u:-"a b"}"', "'a'\\\\b$(echo hi)$((1+2))${v-}${v:-\"a b\"}", '${v:-"a b"}', '"${v:-\'}\'}"',
+            '${v:-"}"}', '${v-\\}}x', '${v##${u%%"}"}}', '~+1/$1$@${10}é$é', '~-/x', '~user/x', '~+', '~-2:',
+            '"\\a\\$\\`\\"\\\\"', '$1a$12', '${1}', '${12-x}', '$((1 + 2))', '$(a b)', '"$(a)$((1))"', "\\\n", '"\\\n"',
+            '$v1_x-', '${v_1:=x}', '${@:+y}', '${*%%z}', '${?#q}', 'a\\', '"$"', '$', '"${v}$@"', '€$€v\U0001f600"\U0001f600"']
+
+
+def wp_spans_ok(resp, nbytes):
+    """the intrinsic predicate on brush's answer: top-level spans tile [0, nbytes), inner spans tile the text between the quotes"""
+    t = resp.split(" ")
+    i, pos, inner_end = 1, 0, None
+    while i < len(t):
+        if t[i] == "]":
+            if pos != inner_end - 1:
+                return False
+            pos, inner_end = inner_end, None
+            i += 1
+            continue
+        s, e = int(t[i + 1]), int(t[i + 2])
+        if t[i] == "D":
+            if s != pos or e < s + 2 or inner_end is not None:
+                return False
+            pos, inner_end = s + 1, e
+            i += 4
+            continue
+        if s != pos or e <= s:
+            return False
+        pos = e
+        i += 4
+    return inner_end is None and pos == nbytes
+
+
+def wp_words(ctx):
+    import itertools
+    n = ctx.size(5, 6)
+    words = [""]
+    for k in range(1, n + 1):
+        words += ["".join(t) for t in itertools.product(WP_ALPHA, repeat=k)]
+    return words, n
+
+
+def leg_w(ctx, rng):
+    words, n = wp_words(ctx)
+    nexh = len(words)
+    gen = [t[1] for t in TEMPLATES + LIST_TEMPLATES] + [c[1] for c in CONTEXTS if isinstance(c, tuple) and len(c) > 1 and isinstance(c[1], str)]
+    words += WP_EXTRA + gen
+    # seeded: longer words over the same alphabet, and generator words spliced together
+    for _ in range(ctx.size(20000, 200000)):
+        words.append("".join(rng.choice(WP_ALPHA) for _ in range(rng.randrange(n + 1, 13))))
+    for _ in range(ctx.size(2000, 20000)):
+        words.append("".join(rng.choice(WP_EXTRA + gen[:28]) for _ in range(rng.randrange(2, 4))))
+    ok, b, err = lib.run_vh_parallel(BIN, [esc("y" + w) for w in words])
+    if not ok:
+        ctx.violation("harness died on a word-parse request", {"leg": "W", "err": err[:500]}, kind="correspondence")
+        return
+    m = lib.run_drv_parallel(["C04 " + esc("y" + w) for w in words])
+    nun = nok = nerr = 0
+    ctx.evals += len(words)
+    for k, (w, x, y) in enumerate(zip(words, b, m)):
+        if x.startswith("OK") and not wp_spans_ok(x, len(w.encode("utf-8"))):
+            ctx.violation("the pieces word::parse returns do not tile the word (a byte dropped or read twice)",
+                          {"leg": "W", "word": w, "brush": x[:400], "model": y[:400]})
+            continue
+        if y == "UNSUPPORTED":
+            nun += 1
+            continue
+        if x != y:
+            ctx.violation("word parser and its model disagree", {"leg": "W", "word": w, "brush": x[:400], "model": y[:400]},
+                          kind="correspondence")
+        elif x == "ERR":
+            nerr += 1
+        else:
+            nok += 1
+    ctx.impl_validated += nok + nerr
+    ctx.bucket("W:exhaustive<=%d" % n, nexh)
+    ctx.bucket("W:generator+seeded", len(words) - nexh)
+    ctx.bucket("W:parsed", nok)
+    ctx.bucket("W:parse-error", nerr)
+    ctx.bucket("W:outside-fragment(skipped)", nun)
+    for w in WP_EXTRA[:3]:
+        ctx.sample({"leg": "W", "word": w, "pieces": b[words.index(w)]})
+
+
 def corpus_cases():
     out = []
     cdir = os.path.join(lib.ROOT, "corpus", PROP)
@@ -722,19 +806,26 @@ def _run(ctx, rng, root):
             batches.append((ch, n, i, o, optline))
     leg_c(ctx, root, batches, "sweep")
     leg_redirect(ctx, cvals + small + mid + rnd, "all")
+    leg_w(ctx, rng)
     ctx.cov["rule"] = (
         "values: every string over a %d-character adversarial alphabet up to length 2 (full cross product with %d word "
         "templates x %d IFS settings x %d glob-option sets), up to length %d with rotating (IFS, options), seeded random to "
         "length 40 over a wider alphabet; lists of 0-6 strings for \"$@\"/\"${k[@]}\"; a scratch directory of %d entries named "
         "after the metacharacters. Leg A: brush's expander in-process vs the Lean model, and the intrinsic predicate on the "
         "quoted templates. Leg B: the brush binary, %d contexts per value, NUL-delimited records, bash as sanity oracle; "
-        "plus redirection targets. non-trivial = a non-empty value"
+        "plus redirection targets. Leg W: brush_parser::word::parse vs Model/WordParse.lean on every word up to length 5 (6 thorough) "
+        "over a 16-character alphabet (a, e-acute, space, both quotes, backslash, $, braces, parentheses, v, 1, @, ~, /), the "
+        "generators' own word texts, and seeded longer words; words outside the modelled fragment are skipped and counted; the "
+        "tiling predicate is evaluated on brush's own answer. non-trivial = a non-empty value"
         % (len(ALPHA), len(TEMPLATES) + len(LIST_TEMPLATES), len(IFSES), len(OPTSETS), 3 if ctx.quick else 4,
            len(DIRNAMES), len(CONTEXTS)))
     ctx.assumptions += [
         "values reach the shell through the process environment / the harness's variable API (no NUL bytes, valid UTF-8)",
         "the directory holds plain files only (one directory level); values containing '/' are used in quoted contexts only",
-        "the word parser (brush-parser/src/word.rs) is exercised by the correspondence run (text to brush, pieces to the model), not modelled",
+        "the word parser (brush-parser/src/word.rs) is modelled on a fragment (Model/WordParse.lean: quotes, escapes, $name/${name}/${name OP word}, "
+        "plain $(...)/$((...)), tilde prefix) and tied exhaustively over short words; outside the fragment (backquotes, $'..', "
+        "indices, substring/replace operators, non-plain command bodies) the same word still goes to brush as text and to the "
+        "expansion model as pieces",
         "command substitution output is supplied to the model as data",
     ]
 
@@ -759,6 +850,17 @@ def replay(ctx, rp):
             print("wanted: %r" % (want,))
             bad = (bv != mv and not unmod) or (t[4] in ("q", "m") and bv != want)
             return 1 if bad else 0
+        if case.get("leg") == "W":
+            w = case["word"]
+            _, b, _ = lib.run_vh(BIN, [esc("y" + w)])
+            m = lib.run_drv(["C04 " + esc("y" + w)])
+            x = b[0] if b else "<none>"
+            print("word:  %r" % (w,))
+            print("brush: %s" % x)
+            print("model: %s" % m[0])
+            tiles = (not x.startswith("OK")) or wp_spans_ok(x, len(w.encode("utf-8")))
+            print("brush's spans tile the word: %s" % tiles)
+            return 1 if (not tiles or (m[0] != "UNSUPPORTED" and m[0] != x)) else 0
         if case.get("leg") == "B":
             v = case["value"]
             sc = script_for([v], case["ifs"], case["opts"], "r")
